@@ -4,9 +4,11 @@ drivers decide each property (see DESIGN.md section 5)."""
 
 class Plan:
     def __init__(self, level, proofs=(), lemmas=(), ground=(), bounded=None,
-                 trusted_base=(), assumptions=(), explanation="", timeouts=(600, 3000)):
+                 trusted_base=(), assumptions=(), explanation="", timeouts=(600, 3000),
+                 more_proofs=()):
         self.level = level
         self.proofs = list(proofs)
+        self.more_proofs = list(more_proofs)      # additional proof jobs of the thorough tier
         self.lemmas = list(lemmas)
         self.ground = list(ground)
         self.bounded = bounded
@@ -94,4 +96,63 @@ PLANS["C15"] = Plan(
                 "primitive measured numbers (re-extracted from the source each run); every value, "
                 "dimension and name checked exhaustively against independent tables; unit/constant "
                 "coincidence symbolically and numerically",
+)
+
+
+# ------------------------------------------------------------------ __array_ufunc__ family
+from contracts import ufunc as _U   # noqa: E402
+
+
+def _uf(*names):
+    return [("contracts.ufunc", n) for n in names]
+
+
+def _sel(pred):
+    return [("contracts.ufunc", n) for n in _U.ALL if pred(n)]
+
+
+_QQ = lambda n: n.endswith("_call_qq")                                   # noqa: E731
+_NONTEMP = lambda n: "_T_" not in n                                      # noqa: E731
+_REPR = ("U_add_", "U_subtract_", "U_maximum_", "U_less_", "U_equal_", "U_multiply_", "U_divide_")
+UNIT_RULES = [("contracts.unit_ops", c) for c in (
+    "PreserveUnits", "DifferenceUnits", "MultiplyUnits", "DivideUnits", "UnitSimplify", "UnitMul",
+    "UnitTrueDiv", "UnitPow", "UnitEq", "SameDimensionsAs", "AsCoeffUnit")]
+CONV = [("contracts.units_core", "GetConversionFactor"), ("contracts.units_core", "SplitPrefix"),
+        ("contracts.units_core", "UnitStr"), ("contracts.units_core", "UnitRepr")]
+
+_COMM = lambda n: any(n.startswith("U_%s_" % u) for u in _U.ADDITIVE + _U.HOMOG + _U.COMPARE)  # noqa: E731
+PLANS["C01"] = Plan(
+    level="proof",
+    proofs=_sel(lambda n: _NONTEMP(n) and _COMM(n) and (_QQ(n) or n.startswith(_REPR)))
+    + CONV + [("contracts.unit_ops", c) for c in ("PreserveUnits", "DifferenceUnits", "UnitEq",
+                                                   "SameDimensionsAs")],
+    more_proofs=_sel(lambda n: _NONTEMP(n) and _COMM(n) and not (_QQ(n) or n.startswith(_REPR))),
+    ground=[G._filtered(G.g_ufunc_classes, "C01.")],
+    trusted_base=BASE_TRUST,
+    explanation="for every commensurability-requiring ufunc the real body of __array_ufunc__ is "
+                "proved (all units, readings, dtypes, shapes; operand kinds quantity / bare scalar / "
+                "0 / bare array) to return only for operands of one dimension or under a documented "
+                "exception, and to leave every operand untouched when it raises; the ufunc->rule "
+                "table is checked against the classification the statement implies",
+)
+PLANS["C04"] = Plan(
+    level="proof",
+    proofs=_sel(lambda n: _NONTEMP(n) and (_QQ(n) or n.startswith(_REPR))) + UNIT_RULES + CONV[:1],
+    more_proofs=_sel(lambda n: _NONTEMP(n) and not (_QQ(n) or n.startswith(_REPR))),
+    ground=[G._filtered(G.g_ufunc_classes, "C04.")],
+    trusted_base=BASE_TRUST,
+    explanation="SI-homomorphism of __array_ufunc__ per ufunc class proved from the real body: "
+                "SI(result) = op(SI(a), SI(b)), dimension by dimensional analysis, label = left-most "
+                "operand's unit; unit rules (_multiply_units, _divide_units, simplify, as_coeff_unit) "
+                "under contract so the coefficient bookkeeping is covered whatever sympy cancels",
+)
+PLANS["C08"] = Plan(
+    level="proof",
+    proofs=_sel(lambda n: "_T_" in n) + CONV + [("contracts.unit_ops", c) for c in (
+        "PreserveUnits", "DifferenceUnits", "UnitMul", "UnitTrueDiv", "UnitPow", "UnitPowOffsetGuard")],
+    trusted_base=BASE_TRUST,
+    explanation="affine point/difference semantics of add/subtract proved for every ordered pair of "
+                "the library's temperature unit names (readings, degree sizes, zero points symbolic); "
+                "offset guards of Unit.__mul__/__truediv__/__pow__ and the affine conversion law "
+                "proved from their bodies",
 )
